@@ -149,6 +149,29 @@ def g_merge(repo):
     return g
 
 
+def g_compare(repo):
+    """C13 wiring: compare_values (type gating), compare_lt/le/gt/ge and `impl PartialEq for PathAwareValue` against cv_spec /
+    peq_spec; scalar comparison entry points of std are assumed uninterpreted models (prelude_cmp.rs)"""
+    g = GroupBuild('compare', repo)
+    g.raw('prelude_common.rs')
+    PV = RULES + 'path_value.rs'
+    g.type(RULES + 'errors.rs', 'Error', derive=None, opaque_payloads='ExtError')
+    g.type(RULES + 'values.rs', 'RangeType', derive=None)
+    g.type(PV, 'Location', derive='Clone, Copy')
+    g.type(PV, 'Path', derive=None)
+    g.type(PV, 'MapValue', derive=None, extra_subst=[('indexmap::IndexMap<String, PathAwareValue>', 'IndexMapSV')])
+    g.type(PV, 'PathAwareValue', derive=None)
+    g.raw('prelude_cmp.rs')
+    g.fn(None, PV, 'type_info', impl=r'impl PathAwareValue', stub=True, wrap_impl='impl PathAwareValue')
+    g.fn('U-cmpv', PV, 'compare_values', spec='compare_values.spec', props=['C13'])
+    for op in ('lt', 'le', 'gt', 'ge'):
+        g.fn('U-' + op, PV, 'compare_' + op, spec='compare_%s.spec' % op, props=['C13'])
+    g.fn('U-peq-v', PV, 'eq', impl=r'impl PartialEq for PathAwareValue', spec='pav_eq.spec', wrap_impl='impl PathAwareValue', props=['C13'])
+    g.unit_meta['L-cmp'] = dict(function='lemma_cmp_algebra', file='/verif/verus/prelude_cmp.rs',
+                                clauses=dict(requires=0, ensures=9, invariant=0, decreases=0), props=['C13'], spec=None, lemma=True)
+    return g
+
+
 def g_report(repo):
     g = GroupBuild('report', repo)
     g.raw('prelude_common.rs')
@@ -276,4 +299,4 @@ def g_tables(repo):
     return g
 
 
-GROUPS = {'tables': g_tables, 'index2': g_index2, 'index': g_index, 'tracker': g_tracker, 'validate': g_validate, 'eval_blocks': g_eval_blocks, 'report': g_report, 'merge': g_merge, 'status': g_status, 'exit': g_exit, 'eval': g_eval, 'eval_disp': g_eval_disp}
+GROUPS = {'compare': g_compare, 'tables': g_tables, 'index2': g_index2, 'index': g_index, 'tracker': g_tracker, 'validate': g_validate, 'eval_blocks': g_eval_blocks, 'report': g_report, 'merge': g_merge, 'status': g_status, 'exit': g_exit, 'eval': g_eval, 'eval_disp': g_eval_disp}
